@@ -1,6 +1,9 @@
 //! one module per family; a family serves one or more properties
 use crate::util::Ctx;
 pub mod fs;
+pub mod fs_prodos;
+pub mod fs_cpm;
+pub mod fs_fat;
 pub mod c01;
 pub mod c02;
 pub mod c03;
